@@ -452,6 +452,7 @@ func rulePairedState(r *Run) {
 		return
 	}
 	_ = m
+	addP := r.fn(pkgModels, "Session", "AddParticipant")
 	n := 0
 	for _, fn := range r.P.All {
 		info := fn.Info()
@@ -479,6 +480,33 @@ func rulePairedState(r *Run) {
 			path := &paths[pi]
 			r.at(path)
 			state := map[types.Object]string{}
+			iAdd, iHook, lastSet := -1, -1, -1
+			hookName := ""
+			for i, ev := range path.Events {
+				if ev.Kind == EvCall {
+					if f, ok := ev.Callee.(*types.Func); ok {
+						if f == addP && iAdd < 0 {
+							iAdd = i
+						}
+						if iAdd >= 0 && iHook < 0 && r.isModuleCode(f) {
+							iHook, hookName = i, shortFuncName(f)
+						}
+					}
+				}
+				if ev.Kind == EvAssign && len(ev.Lhs) == len(ev.Rhs) {
+					for k, l := range ev.Lhs {
+						if se, ok := ast.Unparen(l).(*ast.SelectorExpr); ok {
+							if sel, ok := ev.Fn.Info().Selections[se]; ok && (sel.Obj() == cs || sel.Obj() == cp) && !isNilIdent(ev.Fn.Info(), ev.Rhs[k]) {
+								lastSet = i
+							}
+						}
+					}
+				}
+			}
+			if iAdd >= 0 {
+				r.CheckT("E9", fn.Name+":membership-recorded-before-hooks", lastSet > iAdd && (iHook < 0 || lastSet < iHook), fn.Body.Pos(), path,
+					"after the participant is added to the session, the connection records its session and participant before any module code runs (first module call: %s): the disconnect path undoes the membership only through these fields, so a fault in a module hook in between leaves a ghost participant", hookName)
+			}
 			for _, ev := range path.Events {
 				if ev.Kind != EvAssign || len(ev.Lhs) != len(ev.Rhs) {
 					continue
@@ -895,3 +923,22 @@ func (r *Run) checkWrappedClosure(def *Func, im *types.Func) {
 }
 
 var _ = token.NoPos
+
+// isModuleCode: a method of the Module interface (dynamic call into a plug-in) or any function of a
+// modules/... package.
+func (r *Run) isModuleCode(f *types.Func) bool {
+	if f == nil || f.Pkg() == nil {
+		return false
+	}
+	if strings.HasPrefix(f.Pkg().Path(), repoMod+"/modules/") {
+		return true
+	}
+	if iface, ok := r.M().ModuleIface.Underlying().(*types.Interface); ok {
+		for i := 0; i < iface.NumMethods(); i++ {
+			if iface.Method(i) == f {
+				return true
+			}
+		}
+	}
+	return false
+}
